@@ -22,7 +22,9 @@ func PGPSignerWithKeyID(keyFile, passphrase string, hexKeyID *string) func([]byt
 	return func(data []byte) ([]byte, error) {
 		keyID, err := parseKeyID(hexKeyID)
 		if err != nil {
-			return nil, fmt.Errorf("%v is not a valid key id: %w", hexKeyID, err)
+			return nil, &nfpm.ErrSigningFailure{
+				Err: fmt.Errorf("%v is not a valid key id: %w", hexKeyID, err),
+			}
 		}
 
 		key, err := readSigningKey(keyFile, passphrase)
